@@ -189,7 +189,7 @@ fn reader_strategy(tier: Tier) -> BoxedStrategy<RCase> {
     let max = tier.pick(300 * 1024usize, 4 * 1024 * 1024usize);
     (
         gen::mode4(),
-        prop_oneof![2 => Just(0u32), 2 => 0u32..=5000, 1 => prop::sample::select(vec![1u32, 63, 64, 1023, 1024, 1025, 3072])],
+        prop_oneof![2 => Just(0u32), 2 => 0u32..=5000, 1 => crate::gen::select(vec![1u32, 63, 64, 1023, 1024, 1025, 3072])],
         gen::len_lattice(max).prop_map(|l| l as u32),
         gen::content(),
         prop::collection::vec(ev_strategy(), 0..40),
